@@ -33,7 +33,7 @@ chk('C16','fault_enumeration',
     'Trusts the harness-side precondition (the un-cut encoding decodes and re-encodes to the same octets) and the step clock (line events inside /repo/asn1tools).',
     'deterministic simulation: seeded sender/channel/receiver with crash-point enumeration (cut@k) per message', 'DESIGN.md 3 C16')
 chk('C08','exploration',
-    'Seeded simulation of a long-lived receiver fed by a faulty datagram channel (25+ fault recipes incl. structure-aware BER tampering and compound faults) over seeded modules, all seven decoding codecs; bounded liveness in simulated time (step budget linear in input length) and in wall-clock time (a worker that never returns is blamed, re-run alone in a subprocess and reported as a hang), sampled memory bound, and no-residue check against a reference specification (amplified by replaying the traffic while the compiled type graph keeps changing) plus end-of-run behaviour digest.',
+    'Seeded simulation of a long-lived receiver fed by a faulty datagram channel (25+ fault recipes incl. structure-aware BER tampering and compound faults) over seeded modules, all seven decoding codecs; bounded liveness in simulated time (step budget linear in input length) and in wall-clock time (a worker that never returns is blamed, re-run alone in a subprocess and reported as a hang), sampled memory bound, and no-residue check against a reference specification (amplified by replaying the traffic while the compiled type graph keeps changing) plus end-of-run behaviour digest. Plus cost-guided search (climb items): a population of inputs per type is mutated for up to 600 generations with the step clock as fitness (fraction of the liveness budget used), which reaches super-linear decoders that single faults do not.',
     'Step clock counts Python line events in asn1tools only (C-level work inside one call is invisible); memory via tracemalloc on sampled runs + RLIMIT_AS; zero-width list elements / one-character alphabets are excluded for PER/UPER/OER by construction (documented scope restriction).',
     'deterministic simulation: seeded fault-injecting datagram channel, step-clock liveness budget, history/residue oracle', 'DESIGN.md 3 C08')
 chk('C15','exploration',
@@ -45,11 +45,11 @@ chk('C18','exploration',
     'Pre-emption granularity is one Python source line inside /repo/asn1tools; races inside a line or inside C code are not explored. Operations whose reference run exhausts the step budget are excluded.',
     'deterministic simulation: baton-passing thread scheduler with seeded/explicit schedules, sequential reference model, fault injection (failing ops, allocation failure)', 'DESIGN.md 3 C18')
 chk('C13','exploration',
-    'Seeded histories on one shared parsed dictionary (up to 6 compile_dict calls over 8 codecs + an unknown codec x numeric_enums, interleaved with pre_process_dict, pformat/exec persistence in memory and through the real .py loading path, deepcopy, CLI double compile) compared after every compile with compile_string on a fresh parse (outcome class and behaviour digest); all 256 ordered (codec, flag) pairs and 16 persisted-first histories enumerated on each hand-written corpus module (defaults of every kind, COMPONENTS OF across modules in non-alphabetical order, parameterized types, ANY DEFINED BY with all with/without any_defined_by_choices orders).',
+    'Seeded histories on one shared parsed dictionary (up to 6 compile_dict calls over 8 codecs + an unknown codec x numeric_enums, interleaved with pre_process_dict, pformat/exec persistence in memory and through the real .py loading path, deepcopy, CLI double compile) compared after every compile with compile_string on a fresh parse (outcome class and behaviour digest); all 256 ordered (codec, flag) pairs, 16 persisted-first and 4 persisted-after-compile histories enumerated on each hand-written corpus module (defaults of every kind incl. REAL / time / value-reference enumerations, COMPONENTS OF across modules in non-alphabetical order, parameterized types within and across modules, names that are both values and named numbers, ANY DEFINED BY with all with/without any_defined_by_choices orders).',
     'Behavioural equality is decided on a seeded probe set per type (valid values, one corrupted value, one malformed input, decode_length prefixes), not on all values.',
     'deterministic simulation: seeded operation histories over persistent shared state against a fresh-parse reference model, with persist/restore steps', 'DESIGN.md 3 C13')
 chk('C17','exploration',
-    'Seeded histories of compiler processes on one shared cache directory: real compile_files + diskcache + sqlite on a real filesystem under an LD_PRELOAD libc interposer; edits of the sources, option changes (numeric_enums, any_defined_by_choices, encoding, file boundaries), compiles killed at libc call n (KILL / TORN write) or at a Python tick, compiles under ENOSPC/EIO/EDQUOT and short writes, truncate / delete / zero-page / bit-flip damage between processes, and a concurrent editor that rewrites the sources at Python tick n of a running compile (swept over every 12th / every tick of a compile in the quick / thorough tier); every returned specification compared (behaviour digest) with the uncached compile; errors allowed only after damage or under in-flight I/O errors, recovery required after kills and once I/O errors stop. Plus exhaustive sweeps: every libc crash point (KILL and TORN) of the crashing operation of fixed scenarios (one, plus a KILL-only one on a large module, in the quick tier; six in the thorough tier), counted and executed in the directory state each point starts from.',
+    'Seeded histories of compiler processes on one shared cache directory: real compile_files + diskcache + sqlite on a real filesystem under an LD_PRELOAD libc interposer; edits of the sources, option changes (numeric_enums, any_defined_by_choices, encoding, file boundaries), compiles killed at libc call n (KILL / TORN write) or at a Python tick, compiles under ENOSPC/EIO/EDQUOT and short writes, truncate / delete / zero-page / bit-flip (random, identifier-preserving, identifier-targeted) damage between processes, and a concurrent editor that rewrites the sources at Python tick n of a running compile (swept over every 16th / every tick of a compile in the quick / thorough tier); every returned specification compared (behaviour digest) with the uncached compile; errors allowed only after damage or under in-flight I/O errors, recovery required after kills and once I/O errors stop. Plus exhaustive sweeps: every libc crash point (KILL and TORN) of the crashing operation of fixed scenarios (one, plus a KILL-only one on a large module, in the quick tier; six in the thorough tier), counted and executed in the directory state each point starts from.',
     'Crash = process kill (completed writes survive); power loss and concurrent writers are not simulated. Compiler children are forks of the driver; in killed children the parse+compile step is replaced by the result the same real code produced in the driver (the cache logic, diskcache and sqlite stay real; every 8th sweep point and 20% of random crash ops run fully real). Un-faulted compiles mostly run in the driver process.',
     'deterministic simulation: seeded crash / I-O-fault / damage histories over real storage behind a libc fault seam, uncached reference model, exhaustive crash-point sweeps', 'DESIGN.md 3 C17')
 m = {
